@@ -68,6 +68,11 @@ def c08_symbols(rng, pw, reduced=False):
     syms.append(("PING", lambda: RB("PING", []), "other", False))
     syms.append(("GET k", lambda: RB("get", [b"k"]), "other", False))
     syms.append(("SET k v", lambda: RB("SET", [b"k", b"v"]), "other", False))
+    # a command name the server has no executor for (what newer clients send first: HELLO 3, CLIENT SETINFO): refused like any
+    # other command before AUTH, and leaves nothing behind on the connection
+    syms.append(("HELLO 3 (no executor)", lambda: RB("HELLO", [b"3"]), "other", False))
+    if not reduced:
+        syms.append(("CLIENT SETINFO lib-name x (no executor)", lambda: RB("CLIENT", [b"SETINFO", b"lib-name", b"x"]), "other", False))
     if not reduced:
         syms.append(("ECHO x", lambda: RB("ECHO", [b"x"]), "other", False))
         syms.append(("SELECT 1", lambda: RB("SELECT", [b"1"]), "other", False))
